@@ -159,10 +159,21 @@ def gen_tree(r, size=None, big=False, pool=None, share=0.0):
     return build(size)
 
 
+def tiny_atom(r):
+    k = r.random()
+    if k < 0.3:
+        return b""
+    if k < 0.7:
+        return bytes([r.choice([0, 1, 0x7f, 0x80, 0xff, r.getrandbits(8)])])
+    return bytes(r.getrandbits(8) for _ in range(r.choice([2, 3, 8])))
+
+
 def deep_list(r, n, right=True):
-    t = gen_atom(r)
+    """a list/left-spine of depth n; atoms are tiny so that the (quadratic, list-append based)
+    model stays fast: depth is what these cases are about"""
+    t = tiny_atom(r)
     for _ in range(n):
-        t = (gen_atom(r), t) if right else (t, gen_atom(r))
+        t = (tiny_atom(r), t) if right else (t, tiny_atom(r))
     return t
 
 
